@@ -463,7 +463,22 @@ func insertSlash(t *rapid.T, path string, lower bool) string {
 		enc = "%2f"
 	}
 
-	return path[:pos] + enc + path[pos:]
+	path = path[:pos] + enc + path[pos:]
+
+	// now and then a second encoded slash further on, in the other hex case
+	if rapid.IntRange(0, 2).Draw(t, "secondSlash") == 1 && pos+3 < len(path) {
+		other := map[string]string{"%2F": "%2f", "%2f": "%2F"}[enc]
+		pos2 := rapid.IntRange(pos+3, len(path)).Draw(t, "secondSlashPos")
+
+		// (not into the middle of an escape sequence)
+		if !(pos2 >= 1 && path[pos2-1] == '%') && !(pos2 >= 2 && path[pos2-2] == '%') {
+			path = path[:pos2] + other + path[pos2:]
+
+			vkit.S.Label("slash.both_hex_cases_in_one_path")
+		}
+	}
+
+	return path
 }
 
 // decodeUnreserved decodes the escapes of unreserved characters and spells all others in upper case.
